@@ -123,7 +123,12 @@ def ex(e):
   if t == 'rec': return '{%s}' % ', '.join(('%s:' % f[1]) if isinstance(f, tuple) else '%s: %s' % (f, ex(x)) for f, x in e[1])
   if t == 'fld': return '%s.%s' % (ex(e[1]), e[2])
   if t == 'elem': return 'Element(%s, %s)' % (ex(e[1]), ex(e[2]))
-  if t == 'if': return '(if %s then %s else %s)' % (ex(e[1]), ex(e[2]), ex(e[3]))
+  if t == 'if':
+    if len(e) > 4 and e[4] == 'flat' and e[3][0] == 'if':
+      # documented chain form `if a then b else if c then d else e` (one implication with several if_then entries)
+      inner = ex(e[3][:4] + ('flat',))
+      return '(if %s then %s else %s' % (ex(e[1]), ex(e[2]), inner[1:])
+    return '(if %s then %s else %s)' % (ex(e[1]), ex(e[2]), ex(e[3]))
   if t == 'call': return '%s(%s)' % (e[1], args_str(e[2]))
   if t == 'isnull': return '(%s is null)' % ex(e[1])
   if t == 'inx': return '(%s in %s)' % (ex(e[1]), ex(e[2]))
@@ -264,7 +269,7 @@ def emap(e, f):
   if t == 'rec': return f(('rec', tuple((k, emap(x, f)) for k, x in e[1])))
   if t == 'fld': return f(('fld', emap(e[1], f), e[2]))
   if t in ('elem', 'inx', 'arrow'): return f((t, emap(e[1], f), emap(e[2], f)))
-  if t == 'if': return f(('if', emap(e[1], f), emap(e[2], f), emap(e[3], f)))
+  if t == 'if': return f(('if', emap(e[1], f), emap(e[2], f), emap(e[3], f)) + tuple(e[4:]))
   if t == 'call': return f(('call', e[1], tuple((k, emap(x, f)) for k, x in e[2])))
   if t == 'aggr': return ('aggr', e[1], emap(e[2], f))
   if t == 'comb': return f(('comb', e[1], emap(e[2], f), bmap(e[3], f), e[4]))
